@@ -72,6 +72,8 @@ structure Cfg where
   erasesLocalDepends : Bool
   erasesParamChanges : Bool
   erasesParamDepends : Bool
+  /-- StatementBuilder::collectDependencies (the `restricted` sets): does the closure look into function bodies? -/
+  depsFollowFunctions : Bool
   /-- number of `handleError(.., "$<site>")` statements guarded by `changes_any_variable()` (or, for
       `notComputable`, by `!isCompileTimeComputable(..)`) found in src/typechecker.cpp -/
   sites : List (Site × Nat)
